@@ -118,6 +118,11 @@ class Effects:
                     rk = _root_key(*root_of(f, obj))
                     if rk is not None:
                         d.append((n['id'], rk[0], rk[1], eff))
+                    # x.swap(y) also replaces y
+                    if name == 'swap' and args:
+                        rk = _root_key(*root_of(f, args[0]))
+                        if rk is not None:
+                            d.append((n['id'], rk[0], rk[1], 'assign'))
                     # read(buf, n) writes through buf
                     if name == 'read' and args:
                         rk = _root_key(*root_of(f, args[0]))
